@@ -58,28 +58,43 @@ def _refusal(ctx, f, cfg, target_ids, pred, excname, label, what, refuse_when=Tr
     path to the target nodes.  pred(core) recognises the condition in its canonical form (`X is None`, `X.readonly`);
     refuse_when=False means the request is refused when the canonical condition is FALSE (`X.constant is None` -> go on)"""
     found = None
-    for n in body_walk(f.node):
-        if isinstance(n, ast.If):
-            core, neg = _polarity(n.test)
-            if pred(core):
-                names = {dotted(x.exc.func if isinstance(x.exc, ast.Call) else x.exc) for st in n.body + n.orelse for x in walk_local(st)
-                         if isinstance(x, ast.Raise) and x.exc is not None}
-                if excname in names:
-                    found = (n, neg)
+    excs = {}
+    for u in cfg.nodes:
+        if isinstance(u.ast, ast.Raise) and u.ast.exc is not None:
+            excs[u.id] = dotted(u.ast.exc.func if isinstance(u.ast.exc, ast.Call) else u.ast.exc)
+    for t in cfg.nodes:
+        if t.kind != 'test' or isinstance(t.ast, ast.stmt):
+            continue
+        core, neg = _polarity(t.ast)
+        if pred(core):
+            # the fitting raise lies on one of the two sides (before the driver call): an if body, an else branch, or the
+            # code after an if whose body returns.  A test with the raise on its refusing side is preferred
+            near = cfg.reach([t.id], avoid=list(target_ids), exc=False)
+            if any(excs.get(i) == excname for i in near):
+                sd = 'T' if ((not neg) if refuse_when else neg) else 'F'
+                first = [b for b, lab in cfg.succ[t.id] if lab == sd]
+                onside = set(first) | cfg.reach(first, avoid=list(target_ids), exc=False) if first else set()
+                if any(excs.get(i) == excname for i in onside) and side_never_completes(cfg, t.id, sd):
+                    found = (t, neg)
                     break
+                found = found or (t, neg)
     construct = f'{f.qualname}:{label}'
     if found is None:
         ctx.bad(construct, f.node, f'no `if {what}: raise {excname}` found: {label} is missing, the request is not refused '
                 'with the fitting error class', f)
         return None
-    n, neg = found
-    tid = cfg.ids(n.test)
+    t, neg = found
+    tid = [t.id]
+    n = t.ast
     refusing_true = (not neg) if refuse_when else neg       # truth value of the written test on which the request is refused
     side = 'T' if refusing_true else 'F'
     ok = all(cfg.dominates(tid, t) for t in target_ids) and all(side_never_completes(cfg, i, side) for i in tid)
     goes_on = all(set(target_ids) & (cfg.reach([i], labels={'F' if side == 'T' else 'T'}, avoid=[i]) | set()) for i in tid)
-    ctx.check(ok and goes_on, construct, n, f'`if {src(n.test)}`: the refusing side always raises, the driver call lies on the other side',
-              f'`if {src(n.test)}`: ' + ('the test does not lie on every path to the driver call' if not all(cfg.dominates(tid, t) for t in target_ids) else
+    raises_it = all(any(excs.get(j) == excname for j in cfg.reach([b for b, lab in cfg.succ[i] if lab == side], exc=False) | {b for b, lab in cfg.succ[i] if lab == side})
+                    for i in tid)
+    ok = ok and raises_it
+    ctx.check(ok and goes_on, construct, n, f'`if {src(n)}`: the refusing side always raises, the driver call lies on the other side',
+              f'`if {src(n)}`: ' + ('the test does not lie on every path to the driver call' if not all(cfg.dominates(tid, t) for t in target_ids) else
                                          f'the side on which `{what}` holds does not always raise (or the driver call is on that side): the request is '
                                          f'carried out although it has to be refused with {excname}, and refused when it is legitimate'), f)
     return tid
@@ -382,6 +397,8 @@ def nan_payload_is_refused(ctx):
     c01.range_test_is_nan_safe(ctx)
     c01.nan_is_never_turned_into_a_number(ctx)
     c01.length_is_measured_on_the_value(ctx)     # a payload is valid for the described datainfo: lengths count the value itself
+    c01.declared_limits_enforced(ctx)            # ... and every declared limit is compared with a refusal reachable
+    c01.tolerance_branch_clamps(ctx)             # ... and what passes within the resolution band is clamped into the limits
 
 
 @rule('C04.R2b', min_instances=3)
